@@ -1,9 +1,11 @@
-(* MODEL of /repo/scte35/state.go WITH the repairs of notes/candidate-fixes.patch (F10):
+(* MODEL of /repo/scte35/state.go as of /repo 34afac6, i.e. WITH the F10 repairs and the N1 repair
+   (34afac6: the duplicate scan records the descriptor once per call, `if !descAdded { append; descAdded = true }`,
+   not once per descriptor already stored for its signal time).  F10 repairs (notes/candidate-fixes.patch):
      - the `descAdded = true` slip in the VSS branch of the duplicate scan is gone,
      - after the close loop: `if s.inBlackout && s.blackoutIdx >= len(s.open) { s.inBlackout = false }`,
      - Close keeps blackoutIdx / inBlackout valid when it removes an element at or below the breakaway.
-   Everything else is the code as written: the duplicate scan with its append-per-existing-entry and
-   its early returns that keep the appends already made, the ring of 10 signal times, the close loop,
+   Everything else is the code as written: the duplicate scan with its early returns that keep the
+   append already made, the ring of 10 signal times, the close loop,
    the switch with fallthrough, the validation of "in" types, Close (search from the top, shift,
    truncate), Open (copy, hide the pending breakaway).
    Slice expressions that Go would check are checked here (Panic); the convention cap = len of
@@ -40,15 +42,16 @@ Definition Open (s : state) : Res (list desc) :=
 
 (* inner loop `for _, d := range e.descs` for one ring element; `same` is e.pts == pts.
    The range expression is evaluated once, so the loop runs over the element's ORIGINAL descs while
-   `e.descs = append(e.descs, desc)` grows the stored slice: the result is the number of appends made,
-   descAdded, and the early return (the error) if one happened. *)
+   `e.descs = append(e.descs, desc)` grows the stored slice: the result is the number of appends made
+   (at most one per call since 34afac6: `if !descAdded`), descAdded, and the early return (the error) if
+   one happened. *)
 Fixpoint scan_descs (desc : desc) (same : bool) (ds : list SegDesc.desc) (napp : nat) (added : bool)
   : nat * bool * option N :=
   match ds with
   | [] => (napp, added, None)
   | d :: t =>
     if same && Equal desc d then (napp, added, Some E.SCTE35DuplicateDescriptor) else
-    let napp1 := if same then S napp else napp in
+    let napp1 := if same && negb added then S napp else napp in     (* if !descAdded { append } *)
     let added1 := if same then true else added in
     if (event desc =? event d) && (ty d =? 0x40) && (ty desc =? 0x40) then
       match StreamSwitchSignalId desc with
